@@ -1746,27 +1746,36 @@ func (ctx *RenderContext) contains(container, item interface{}) (bool, error) {
 		if rv.Len() > 50 && rv.Type().Elem().Comparable() && allHashable(item) {
 			// Same map-based optimization as above
 			tempMap := make(map[interface{}]struct{}, rv.Len())
+			hashable := true
 			for i := 0; i < rv.Len(); i++ {
+				// A comparable element TYPE (an interface, a struct with an interface
+				// field) can still hold a value that cannot be hashed
+				if !rv.Index(i).Comparable() {
+					hashable = false
+					break
+				}
 				tempMap[rv.Index(i).Interface()] = struct{}{}
 			}
 
-			// Try direct lookup
-			if _, ok := tempMap[item]; ok {
-				return true, nil
-			}
-
-			// Try string-based lookup
-			if _, ok := tempMap[ctx.ToString(item)]; ok {
-				return true, nil
-			}
-
-			// Fall back to equality comparison
-			for k := range tempMap {
-				if ctx.equals(k, item) {
+			if hashable {
+				// Try direct lookup
+				if _, ok := tempMap[item]; ok {
 					return true, nil
 				}
+
+				// Try string-based lookup
+				if _, ok := tempMap[ctx.ToString(item)]; ok {
+					return true, nil
+				}
+
+				// Fall back to equality comparison
+				for k := range tempMap {
+					if ctx.equals(k, item) {
+						return true, nil
+					}
+				}
+				return false, nil
 			}
-			return false, nil
 		}
 
 		// For small collections, linear search
@@ -1790,11 +1799,14 @@ func (ctx *RenderContext) contains(container, item interface{}) (bool, error) {
 // allHashable reports whether every value can be used as a map key (a slice, a
 // map or a func cannot: hashing it panics)
 func allHashable(item interface{}, values ...interface{}) bool {
-	if item != nil && !reflect.TypeOf(item).Comparable() {
+	// Value.Comparable looks at the value, not only at its type: a struct with an
+	// interface field is of a comparable type and still panics when the field
+	// holds a slice
+	if item != nil && !reflect.ValueOf(item).Comparable() {
 		return false
 	}
 	for _, v := range values {
-		if v != nil && !reflect.TypeOf(v).Comparable() {
+		if v != nil && !reflect.ValueOf(v).Comparable() {
 			return false
 		}
 	}
